@@ -26,6 +26,7 @@ const chainID = 1337
 type L1 struct {
 	Backend    *simulated.Backend
 	Auth       *bind.TransactOpts
+	nextNonce  uint64
 	BridgeAddr common.Address
 	Bridge     *polygonzkevmbridgev2.Polygonzkevmbridgev2
 	GERAddr    common.Address
@@ -97,7 +98,19 @@ func NewL1() (*L1, error) {
 	if rAddr != rmAddr {
 		return nil, fmt.Errorf("rollup manager address %s != precalculated %s", rAddr, rmAddr)
 	}
-	return &L1{Backend: be, Auth: auth, BridgeAddr: bridgeAddr, Bridge: bridge, GERAddr: gerAddr, GER: ger, RMAddr: rmAddr, RM: rm}, nil
+	l := &L1{Backend: be, Auth: auth, BridgeAddr: bridgeAddr, Bridge: bridge, GERAddr: gerAddr, GER: ger, RMAddr: rmAddr, RM: rm}
+	// nonces are managed here: under load the simulated backend's tx pool can lag behind and
+	// PendingNonceAt then hands out a nonce that is already taken ("replacement transaction underpriced")
+	if l.nextNonce, err = be.Client().PendingNonceAt(context.Background(), auth.From); err != nil {
+		return nil, err
+	}
+	return l, nil
+}
+
+func (l *L1) opts() *bind.TransactOpts {
+	o := *l.Auth
+	o.Nonce = new(big.Int).SetUint64(l.nextNonce)
+	return &o
 }
 
 // Close releases the backend
@@ -118,23 +131,37 @@ func (l *L1) Receipt(tx *types.Transaction) (*types.Receipt, error) {
 // Deposit sends bridgeMessage (asMessage) or a native-token bridgeAsset. The transaction is only
 // sent, not mined: call Commit to mine the pending ones into one block.
 func (l *L1) Deposit(destNet uint32, destAddr common.Address, amount *big.Int, metadata []byte, asMessage, forceUpdateGER bool) (*types.Transaction, error) {
-	opts := *l.Auth
+	opts := l.opts()
 	opts.Value = amount
 	opts.GasLimit = 3_000_000
+	var tx *types.Transaction
+	var err error
 	if asMessage {
-		return l.Bridge.BridgeMessage(&opts, destNet, destAddr, forceUpdateGER, metadata)
+		tx, err = l.Bridge.BridgeMessage(opts, destNet, destAddr, forceUpdateGER, metadata)
+	} else {
+		tx, err = l.Bridge.BridgeAsset(opts, destNet, destAddr, amount, common.Address{}, forceUpdateGER, nil)
 	}
-	return l.Bridge.BridgeAsset(&opts, destNet, destAddr, amount, common.Address{}, forceUpdateGER, nil)
+	if err == nil {
+		l.nextNonce++
+	}
+	return tx, err
 }
 
 // VerifyBatches calls the rollup manager stand-in
 func (l *L1) VerifyBatches(rollupID uint32, batch uint64, exitRoot, stateRoot common.Hash, updateGER, trusted bool) (*types.Transaction, error) {
-	opts := *l.Auth
+	opts := l.opts()
 	opts.GasLimit = 8_000_000
+	var tx *types.Transaction
+	var err error
 	if trusted {
-		return l.RM.VerifyBatchesTrustedAggregator(&opts, rollupID, batch, exitRoot, stateRoot, updateGER)
+		tx, err = l.RM.VerifyBatchesTrustedAggregator(opts, rollupID, batch, exitRoot, stateRoot, updateGER)
+	} else {
+		tx, err = l.RM.VerifyBatches(opts, rollupID, batch, exitRoot, stateRoot, updateGER)
 	}
-	return l.RM.VerifyBatches(&opts, rollupID, batch, exitRoot, stateRoot, updateGER)
+	if err == nil {
+		l.nextNonce++
+	}
+	return tx, err
 }
 
 // Commit mines a block with the pending transactions and returns its header
